@@ -236,6 +236,25 @@ pub fn mutations(seed: &[u8], pairs: bool) -> Vec<(String, Vec<u8>)> {
         }
         i += 4;
     }
+    // 64-bit sequence numbers (RTPS: high i32 then low u32) at every 4-aligned offset: the extremes cannot be reached by
+    // substituting one 32-bit half (i64::MIN needs low = 0, i64::MAX needs low = 0xffffffff)
+    let sn64: [(&str, u32, u32); 6] = [("max", 0x7fff_ffff, 0xffff_ffff), ("min", 0x8000_0000, 0), ("max-1", 0x7fff_ffff, 0xffff_fffe), ("-1", 0xffff_ffff, 0xffff_ffff), ("0", 0, 0), ("2^48", 0x1_0000, 0)];
+    let mut i = 0;
+    while i + 8 <= n {
+        for (name, hi, lo) in sn64 {
+            for le in [true, false] {
+                let mut b = [0u8; 8];
+                b[..4].copy_from_slice(&if le { hi.to_le_bytes() } else { hi.to_be_bytes() });
+                b[4..].copy_from_slice(&if le { lo.to_le_bytes() } else { lo.to_be_bytes() });
+                if seed[i..i + 8] != b {
+                    let mut m = seed.to_vec();
+                    m[i..i + 8].copy_from_slice(&b);
+                    v.push((format!("sn64@{i}={name}{}", if le { "le" } else { "be" }), m));
+                }
+            }
+        }
+        i += 4;
+    }
     if pairs {
         // all pairs of 32-bit substitutions inside the first 64 bytes
         let lim = n.min(64);
@@ -529,7 +548,7 @@ fn c06_cases(thorough: bool) -> Vec<(usize, String, Vec<u8>)> {
             }
             // phase 1 (after discovery) for every case; the other phases on a reduced mutation set
             cases.push((1usize, format!("{} {d}", s.name), b.clone()));
-            let reduced = d.starts_with("trunc@") || d.starts_with("u32@") || d == "identity";
+            let reduced = d.starts_with("trunc@") || d.starts_with("u32@") || d.starts_with("sn64@") || d == "identity";
             if from_p2 && (thorough || reduced) {
                 cases.push((2usize, format!("{} {d}", s.name), b.clone()));
             }
